@@ -1304,6 +1304,9 @@ func (s *State) evalArrayInfixExpression(operator token.Type, left, right object
 		if rightVal < 0 {
 			return s.NewError("right operand of * on arrays must be a positive integer")
 		}
+		if len(leftVal) == 0 {
+			return object.NewArray(nil) // [] * n is [] (and must not loop n times doing nothing).
+		}
 		result := object.MakeObjectSlice(repeatLen(len(leftVal), rightVal))
 		for range rightVal {
 			result = append(result, leftVal...)
